@@ -82,7 +82,7 @@ func TestDbgAvoidLeaks(t *testing.T) {
 		if c == nil || n >= 6 {
 			return
 		}
-		if caseFeatures(c)[cls] {
+		if caseFeatures(c)[cls] && len(c.Op.Query) < 260 {
 			n++
 			fmt.Println("LEAK:", c.Op.Query)
 		}
